@@ -95,8 +95,16 @@ def gen_level(rng, ids, depth, bad_ok=True):
             for f in forms:
                 name = base + ("_ordinal" if rule == "ordinal" else "") + "_" + f
                 lvl[name] = gen_value(rng, ids, depth, False) if rng.random() < 0.9 else gen_value(rng, ids, depth, True)
-        if rng.random() < 0.2:
-            lvl[base if base not in BAD_BASES else "k"] = gen_value(rng, ids, depth, True)
+        if rng.random() < 0.25:
+            # a key named like the base: collides with the plural if the group is merged - with a value of every kind
+            name = base if base not in BAD_BASES else "k"
+            r = rng.random()
+            if r < 0.5:
+                lvl[name] = gen_value(rng, ids, depth, True)
+            elif r < 0.9 or py_classify(name) is not None:
+                lvl[name] = ("leaf", 0, rng.choice(["empty", "empty", "bool", "var"]))
+            else:
+                lvl[name] = ("null0", 0)
     for name in rng.sample(NORMALS, rng.choice([0, 1, 2, 3])):
         lvl.setdefault(name, gen_value(rng, ids, depth, True))
     if not lvl:
@@ -109,6 +117,11 @@ def json_value(v):
     if kind == "sub":
         return {k: json_value(x) for k, x in v[2].items()}
     i = v[1]
+    if kind == "null0":
+        return None
+    if kind == "leaf" and len(v) > 2:
+        # values without an id (id 0): empty string, bool, a lone variable
+        return {"empty": "", "bool": True, "var": "{{ v }}"}[v[2]]
     if kind == "ranges":
         return [["#%d z" % i, 0], ["#%d r" % i, "_"]]
     return ["#%d text" % i, "#%d {{ count }}" % i, "<b>#%d</b>" % i, i][i % 4]
@@ -143,6 +156,17 @@ def corpus_levels():
         {"x_zero": L(1), "x_one": L(2), "x_two": L(3), "x_few": L(4), "x_many": L(5), "x_other": L(6)},
         {"x_ordinal_zero": L(1), "x_ordinal_few": L(4), "x_ordinal_other": L(6), "k": ("sub", 9, {"y_one": L(7), "y_other": L(8)})},
         {"x_one": ("ranges", 1), "x_other": L(2), "x_two": L(3)},   # a range table is never a plural form
+        # the base key exists with a value of every kind: PluralsAtNormalKey each time (the empty string is a value too)
+        {"x": ("leaf", 0, "empty"), "x_one": L(2), "x_other": L(3)},
+        {"x": ("leaf", 0, "empty"), "x_ordinal_two": L(2), "x_ordinal_other": L(3)},
+        {"x": ("leaf", 0, "bool"), "x_one": L(2), "x_other": L(3)},
+        {"x": ("leaf", 0, "var"), "x_one": L(2), "x_other": L(3)},
+        {"x": ("null0", 0), "x_one": L(2), "x_other": L(3)},
+        {"x": L(7), "x_one": L(2), "x_other": L(3)},                 # id 7: a number literal
+        {"x": ("ranges", 1), "x_few": L(2), "x_other": L(3)},
+        {"x": ("sub", 9, {"k": L(1)}), "x_one": L(2), "x_other": L(3)},
+        {"s": ("sub", 9, {"x": ("leaf", 0, "empty"), "x_one": L(2), "x_other": L(3)}), "k": L(4)},
+        {"x": ("leaf", 0, "empty"), "x_one": L(2)},                  # not merged: the empty value simply stays
         {"in_one": L(1), "in_other": L(2)},                          # base key `in` is a keyword: InvalidKey("in")
         {"_one": L(1), "_other": L(2), "k": L(3)},                   # empty base key
         {"type_ordinal_two": L(1), "type_ordinal_other": L(2)},
@@ -169,7 +193,8 @@ def gen_projects(ctx, n_random):
 # ---------------------------------------------------------------- Coq terms
 
 def coq_ival(v):
-    return {"leaf": "(Leaf %d)", "ranges": "(RangesV %d)", "sub": "(SubV %d)"}[v[0]] % v[1]
+    # `null` (an explicit default) is never a plural candidate, like a range table: modelled as an opaque RangesV 0
+    return {"leaf": "(Leaf %d)", "ranges": "(RangesV %d)", "sub": "(SubV %d)", "null0": "(RangesV %d)"}[v[0]] % v[1]
 
 
 def coq_path(p):
@@ -189,6 +214,8 @@ def coq_oval(t, src_level):
         return "(Kept (RangesV %d))" % int(t.get("id") or 0)
     if k == "sub":
         return "(Kept (SubV %d))" % t.get("_sid", 0)
+    if k == "default":
+        return "(Kept (RangesV 0))"
     return "(Kept (Leaf 0))"
 
 
@@ -238,7 +265,7 @@ def level_cases(loc, cats, src, raw, out, warns, impl_err, impl_panic, path, acc
     co = core.coq_list([COQ_FORM[f] for f in cats["o"]])
     acc.append(("(mk_case %s %s %s %s %s %s %s)" % (coq_path(path), core.coq_list([core.coq_str(b) for b in bad]), cc, co, keys,
                                                     core.coq_list(tags), impl),
-                dict(meta_base, path=path, keys={n: list(src[n][:2]) for n in names}, py_tag_mismatch=py_tag_mismatch,
+                dict(meta_base, path=path, keys={n: list(src[n][:2]) + (list(src[n][2:3]) if src[n][0] == "leaf" else []) for n in names}, py_tag_mismatch=py_tag_mismatch,
                      observed=impl != "None")))
     ok = True
     for (name, rt, pp) in raw:
